@@ -482,6 +482,7 @@ def _run(case, scratch):
   plans.append(('entry', None))
   plans.append(('earlier_copy_appears', None))
   plans.append(('absolute_name_is_not_package_relative', None))
+  plans.append(('dynamic_names_do_not_cross_files', None))
   for label, plan in plans:
     if only and label != only:
       continue
@@ -491,6 +492,8 @@ def _run(case, scratch):
       _earlier_copy(case, scratch, v, lg, cnt)
     elif label == 'absolute_name_is_not_package_relative':
       _abs_vs_package(case, scratch, v, lg, cnt)
+    elif label == 'dynamic_names_do_not_cross_files':
+      _dynamic_foreign_names(case, scratch, v, lg)
     elif label == 'entry':
       _entry(case, scratch, v, lg, cnt)
     elif plan[0] == 'missing':
@@ -615,6 +618,67 @@ def _abs_vs_package(case, scratch, v, lg, cnt):
   elif not isinstance(exc, OSError):
     v('C14.missing_is_ioerror', ['absolute', type(exc).__name__],
       'unreadable absolute name raised %s' % type(exc).__name__)
+
+
+def _dynamic_foreign_names(case, scratch, v, lg):
+  """Multi-file entry point with dynamic registration: a name that an EARLIER
+  file (or an earlier parse) imported is unknown in a later file that does not
+  import it - an error, or skipped when skip_unknown asks for that."""
+  gin = world.gin
+  _clean_scratch(scratch)
+  world.reset()
+  got = {}
+
+  def dfn(x=0):
+    got['x'] = x
+    return x
+  dfn.__module__ = 'vsim_c14mod'
+  probes.plant_module('vsim_c14mod', {'dfn': dfn})
+  head = 'from __gin__ import dynamic_registration\n'
+  a = os.path.join(scratch, 'dyn_a.gin')
+  b = os.path.join(scratch, 'dyn_b.gin')
+  with open(a, 'w') as f:
+    f.write(head + 'import vsim_c14mod as mod_a\nmod_a.dfn.x = 1\n')
+  with open(b, 'w') as f:
+    f.write(head + 'mod_a.dfn.x = 2\n')
+  attempts = [
+      ('second file', lambda: gin.parse_config_files_and_bindings(
+          [a, b], [], finalize_config=False)),
+      ('extra bindings', lambda: gin.parse_config_files_and_bindings(
+          [a], [head.strip(), 'mod_a.dfn.x = 3'], finalize_config=False)),
+      ('later parse', lambda: gin.parse_config_file(b)),
+  ]
+  for what, fn in attempts:
+    exc = None
+    try:
+      fn()
+    except Exception as e:  # pylint: disable=broad-except
+      exc = e
+    try:
+      val = gin.get_bindings(dfn).get('x')
+    except Exception as e:  # pylint: disable=broad-except
+      val = 'EXC %s' % type(e).__name__
+    lg.add('dyn_foreign', what, type(exc).__name__ if exc else None, val)
+    if exc is None or val != 1:
+      v('C14.unknown_is_error', ['dynamic-registration', what],
+        'dyn_a.gin imports vsim_c14mod as mod_a; %s uses mod_a without '
+        'importing it: %s, mod_a.dfn.x is %r (expected an error and 1)' %
+        (what, 'no error' if exc is None else type(exc).__name__, val))
+      break
+  if True:
+    # with skip_unknown the foreign name is skipped, not bound
+    try:
+      gin.parse_config_files_and_bindings([a, b], [], finalize_config=False,
+                                          skip_unknown=True)
+      val = gin.get_bindings(dfn).get('x')
+      if val != 1:
+        v('C14.unknown_is_error', ['dynamic-registration', 'skip_unknown'],
+          'with skip_unknown=True the binding of the foreign name mod_a in '
+          'dyn_b.gin was applied: mod_a.dfn.x is %r' % (val,))
+    except Exception as e:  # pylint: disable=broad-except
+      v('C14.entry_point', ['dynamic-registration', type(e).__name__],
+        'skip_unknown=True over a foreign dynamic name raised %r' % e)
+  sys.modules.pop('vsim_c14mod', None)
 
 
 def _skip_kwargs(case):
